@@ -628,7 +628,7 @@ func (i *IntervalExpression) SQL() string {
 	if i == nil {
 		return ""
 	}
-	return fmt.Sprintf("INTERVAL '%s'", i.Value)
+	return "INTERVAL '" + escapeStringLiteral(i.Value) + "'"
 }
 
 func (l *ListExpression) SQL() string {
